@@ -40,6 +40,7 @@ type Case struct {
 	TimeoutMs    int     `json:"timeout_ms"`
 	SharedClient bool    `json:"shared_client"`
 	Instances    int     `json:"instances"`
+	Long         bool    `json:"long_file,omitempty"`
 }
 
 var strPool = []string{"", "a", "user name", "пользователь", "日本", "q\"uote", "back\\slash", "tab\there", "{{not a template}}", "x y z"}
@@ -125,6 +126,24 @@ func genCase(t *rapid.T) Case {
 	n := rapid.IntRange(1, 8).Draw(t, "entries")
 	for i := 0; i < n; i++ {
 		c.Entries = append(c.Entries, genEntry(t, i))
+	}
+	// one file in six is longer than the provider's read-ahead (its ammo objects are recycled through a pool only
+	// after ~128 entries): the drawn entries are repeated cyclically, each copy with its own entry marker
+	if rapid.IntRange(0, 5).Draw(t, "long") == 0 {
+		base := c.Entries
+		total := rapid.IntRange(150, 400).Draw(t, "longEntries")
+		for i := len(base); i < total; i++ {
+			e := base[i%len(base)]
+			e.Stall = false
+			md := map[string]string{}
+			for k, v := range e.Metadata {
+				md[k] = v
+			}
+			md["x-entry"] = strconv.Itoa(i)
+			e.Metadata = md
+			c.Entries = append(c.Entries, e)
+		}
+		c.Long = true
 	}
 	c.TimeoutMs = rapid.SampledFrom([]int{150, 300, 1000}).Draw(t, "timeoutMs")
 	c.SharedClient = rapid.Bool().Draw(t, "sharedClient")
@@ -301,6 +320,7 @@ func check(c Case, o *vf.Obs) error {
 		}
 	}
 	o.ClassIf(mdExtra, "metadata")
+	o.ClassIf(c.Long, "file_longer_than_read_ahead")
 	o.ClassIf(invalids > 0 && invalids < len(c.Entries), "invalid_mixed_with_valid")
 	o.ClassIf(stalls > 0, "stalled_call")
 	o.ClassIf(c.Instances >= 2, "instances_ge_2")
